@@ -620,6 +620,9 @@ def sub(base, idx):
     # an element-wise function of a shape tuple, indexed: np.log2(x.shape)[k] is np.log2(x.shape[k])
     if base.op == "call" and callee_name(base.a[0]) in ("np.log2", "np.log", "np.sqrt", "np.abs", "np.exp", "np.log10") and len(base.a[1]) == 1 and not base.a[2] and base.a[1][0].op == "attr" and base.a[1][0].a[1] == "shape" and idx.op == "const" and isinstance(idx.a[0], float):
         return call(base.a[0], (sub(base.a[1][0], idx),))
+    # x.shape[0] is len(x)
+    if base.op == "attr" and base.a[1] == "shape" and idx.op == "const" and idx.a[0] == 0 and not isinstance(idx.a[0], bool) and not (base.a[0].op == "call" and (callee_name(base.a[0].a[0]) or "").endswith(".outer")):
+        return call(mk("builtin", "len"), (base.a[0],))
     # np.<op>.outer(a, b).shape[k] is the length of a (k = 0) / of b (k = 1)
     if base.op == "attr" and base.a[1] == "shape" and idx.op == "const" and idx.a[0] in (0, 1) and not isinstance(idx.a[0], bool):
         o = base.a[0]
